@@ -509,6 +509,194 @@ def _deref_inlined_refs(caller):
         fix(blk["term"])
 
 
+# --------------------------------------------------------------------------------------
+# Option / Result combinators whose closure has a side effect
+#
+# `check(..).map(|()| self.field = value)` runs the store only on the Ok edge, but as MIR it is
+# a call that takes a closure: the store sits in another body and no guard dominates it.  A
+# value-pure closure is well represented by the expression trees; one that *writes through a
+# captured reference* needs its place in the caller's control flow.  Such a call is rewritten
+# into the `match` it abbreviates - discriminant switch, payload projection, the closure body
+# inlined on its arm, the other arm passed through - so path and store rules see
+# `match r { Ok(v) => Ok(f(v)), Err(e) => Err(e) }`.
+
+_COMBINATORS = {
+    # callee def: (enum, variant that runs the closure, what the closure's result becomes, generic-arg positions (payload, other payload, result payload))
+    "std::result::Result::<T, E>::map": ("Result", "Ok", "wrap"),
+    "std::result::Result::<T, E>::and_then": ("Result", "Ok", "flat"),
+    "std::result::Result::<T, E>::map_err": ("Result", "Err", "wrap"),
+    "std::result::Result::<T, E>::or_else": ("Result", "Err", "flat"),
+    "std::option::Option::<T>::map": ("Option", "Some", "wrap"),
+    "std::option::Option::<T>::and_then": ("Option", "Some", "flat"),
+}
+_VARIANTS = {"Result": (("Ok", 0), ("Err", 1)), "Option": (("None", 0), ("Some", 1))}
+_ENUM_DEF = {"Result": "std::result::Result", "Option": "std::option::Option"}
+
+
+def _writes_through_capture(body):
+    """does the closure body store through a captured reference (directly, or through a copy /
+    reborrow of it held in a temporary)?"""
+    refs = {1}
+    changed = True
+    while changed:
+        changed = False
+        for blk in body["blocks"]:
+            for st in blk["stmts"]:
+                if st.get("k") != "assign" or st["place"].get("proj"):
+                    continue
+                rv = st["rv"]
+                src = None
+                if rv.get("k") == "use" and rv["op"].get("k") in ("copy", "move"):
+                    src = rv["op"]["place"]
+                elif rv.get("k") == "ref":
+                    src = rv.get("place")
+                if src is not None and src.get("local") in refs and st["place"]["local"] not in refs:
+                    refs.add(st["place"]["local"])
+                    changed = True
+            t = blk["term"]
+            if t.get("k") == "call" and t.get("dest") and not t["dest"].get("proj") and t["dest"]["local"] not in refs \
+                    and str(t.get("dest_ty", "")).startswith("&mut") \
+                    and any(a.get("k") in ("copy", "move") and a["place"].get("local") in refs for a in t.get("args", [])):
+                # `index_mut(&mut *captured, i)` and the like: a mutable reference derived from one
+                refs.add(t["dest"]["local"])
+                changed = True
+    for blk in body["blocks"]:
+        if blk.get("cleanup"):
+            continue
+        for st in blk["stmts"]:
+            if st.get("k") == "assign":
+                pl = st["place"]
+                if pl.get("local") in refs and any(el.get("k") == "deref" for el in pl.get("proj", [])):
+                    return True
+    return False
+
+
+def desugar_effect_combinators(doc):
+    bodies = {b["path"]: b for b in doc["bodies"]}
+    done = []
+    for caller in list(doc["bodies"]):
+        bi = 0
+        while bi < len(caller["blocks"]):
+            blk = caller["blocks"][bi]
+            t = blk["term"]
+            bi += 1
+            if t.get("k") != "call" or blk.get("cleanup"):
+                continue
+            c = t.get("callee") or {}
+            spec = _COMBINATORS.get(c.get("def")) if c.get("k") == "fndef" else None
+            if spec is None or len(t.get("args", [])) != 2 or t.get("target") is None:
+                continue
+            enum, run_variant, mode = spec
+            r_op, f_op = t["args"]
+            if any(o.get("k") != "move" or o["place"].get("proj") for o in (r_op, f_op)):
+                continue
+            rl, fl_ = r_op["place"]["local"], f_op["place"]["local"]
+            # the closure operand: one definition, a closure aggregate
+            cdef = None
+            for b2 in caller["blocks"]:
+                for st in b2["stmts"]:
+                    if st.get("k") == "assign" and st["place"].get("local") == fl_ and not st["place"].get("proj"):
+                        rv = st["rv"]
+                        cdef = rv["kind"].get("def") if rv.get("k") == "aggregate" and rv["kind"].get("k") == "closure" and cdef is None else False
+            cb = bodies.get(cdef) if cdef else None
+            if cb is None or cb.get("argc") != 2 or not _writes_through_capture(cb):
+                continue
+            gargs = c.get("args") or []
+            ginfo = c.get("arg_info") or []
+            locs = caller["hdr"]["locals"]
+            span = t.get("span")
+
+            def new_local(ty, info=None):
+                locs.append({"ty": ty, "info": info or {"k": "unknown"}, "name": None, "mut": True, "inl": True})
+                return len(locs) - 1
+            recv_ty = locs[rl]["ty"]
+            recv_info = locs[rl].get("info") or {}
+            rargs = recv_info.get("args") or []
+            # payload type of each variant of the receiver
+            if enum == "Result":
+                pay = {"Ok": rargs[0] if rargs else "?", "Err": rargs[1] if len(rargs) > 1 else "?"}
+            else:
+                pay = {"Some": rargs[0] if rargs else "?"}
+            dest_ty = t.get("dest_ty") or "?"
+            import re as _re
+            m = _re.match(r"^std::(?:result::Result|option::Option)<(.*)>$", dest_ty)
+            dargs = []
+            if m:
+                depth = 0
+                cur = ""
+                for ch in m.group(1):
+                    if ch in "<([":
+                        depth += 1
+                    elif ch in ">)]":
+                        depth -= 1
+                    if ch == "," and depth == 0:
+                        dargs.append(cur.strip())
+                        cur = ""
+                    else:
+                        cur += ch
+                if cur.strip():
+                    dargs.append(cur.strip())
+            ret_ty = cb["hdr"]["locals"][0]["ty"]
+            d = new_local("isize", {"k": "prim", "s": "isize"})
+            nb = len(caller["blocks"])
+            b_run, b_after, b_pass, b_unreach = nb, nb + 1, nb + 2, nb + 3
+            v = new_local(pay.get(run_variant, "?"))
+            u = new_local(ret_ty, cb["hdr"]["locals"][0].get("info"))
+            vidx = dict(_VARIANTS[enum])
+            blk["stmts"].append({"k": "assign", "place": {"local": d, "proj": []},
+                                 "rv": {"k": "discriminant", "place": {"local": rl, "proj": []}, "of": recv_ty}, "span": span})
+            other = [n for n, _i in _VARIANTS[enum] if n != run_variant][0]
+            blk["term"] = {"k": "switch", "discr": {"k": "move", "place": {"local": d, "proj": []}}, "discr_ty": "isize",
+                           "targets": [[vidx[run_variant], b_run], [vidx[other], b_pass]], "otherwise": b_unreach, "span": span,
+                           "desugared": c.get("def")}
+            # the arm that runs the closure
+            env_op = {"k": "move", "place": {"local": fl_, "proj": []}}
+            run_stmts = [{"k": "assign", "place": {"local": v, "proj": []},
+                          "rv": {"k": "use", "op": {"k": "move", "place": {"local": rl, "proj": [
+                              {"k": "downcast", "variant": run_variant, "idx": vidx[run_variant]},
+                              {"k": "field", "i": 0, "name": "0", "of": _ENUM_DEF[enum], "ty": pay.get(run_variant, "?")}]}}}, "span": span}]
+            if str(cb["hdr"]["locals"][1]["ty"]).startswith("&"):
+                er = new_local(cb["hdr"]["locals"][1]["ty"], cb["hdr"]["locals"][1].get("info"))
+                run_stmts.append({"k": "assign", "place": {"local": er, "proj": []},
+                                  "rv": {"k": "ref", "mut": True, "bk": "Mut", "place": {"local": fl_, "proj": []}}, "span": span})
+                env_op = {"k": "move", "place": {"local": er, "proj": []}}
+            call_t = {"k": "call", "callee": {"k": "fndef", "def": cdef, "krate": doc.get("crate"), "args": [], "arg_info": [], "with_args": cdef,
+                                               "resolved": cdef, "resolved_krate": doc.get("crate"), "resolved_kind": "Item", "resolved_with_args": cdef},
+                      "args": [env_op, {"k": "move", "place": {"local": v, "proj": []}}], "arg_tys": [],
+                      "dest": {"local": u, "proj": []}, "dest_ty": ret_ty, "target": b_after, "unwind": t.get("unwind"),
+                      "fn_span": span, "span": span}
+            caller["blocks"].append({"cleanup": False, "stmts": run_stmts, "term": call_t})
+            # after the closure: wrap or pass its result
+            if mode == "wrap":
+                after = [{"k": "assign", "place": copy.deepcopy(t["dest"]),
+                          "rv": {"k": "aggregate", "kind": {"k": "adt", "def": _ENUM_DEF[enum], "krate": "core", "variant": run_variant,
+                                                            "vidx": vidx[run_variant], "fields": ["0"], "args": dargs},
+                                 "ops": [{"k": "move", "place": {"local": u, "proj": []}}]}, "span": span}]
+            else:
+                after = [{"k": "assign", "place": copy.deepcopy(t["dest"]), "rv": {"k": "use", "op": {"k": "move", "place": {"local": u, "proj": []}}}, "span": span}]
+            caller["blocks"].append({"cleanup": False, "stmts": after, "term": {"k": "goto", "target": t["target"], "span": span}})
+            # the other arm: the value passes through
+            if other == "None":
+                pst = [{"k": "assign", "place": copy.deepcopy(t["dest"]),
+                        "rv": {"k": "aggregate", "kind": {"k": "adt", "def": _ENUM_DEF[enum], "krate": "core", "variant": "None", "vidx": 0, "fields": [], "args": dargs}, "ops": []}, "span": span}]
+            else:
+                e = new_local(pay.get(other, "?"))
+                pst = [{"k": "assign", "place": {"local": e, "proj": []},
+                        "rv": {"k": "use", "op": {"k": "move", "place": {"local": rl, "proj": [
+                            {"k": "downcast", "variant": other, "idx": vidx[other]},
+                            {"k": "field", "i": 0, "name": "0", "of": _ENUM_DEF[enum], "ty": pay.get(other, "?")}]}}}, "span": span},
+                       {"k": "assign", "place": copy.deepcopy(t["dest"]),
+                        "rv": {"k": "aggregate", "kind": {"k": "adt", "def": _ENUM_DEF[enum], "krate": "core", "variant": other, "vidx": vidx[other], "fields": ["0"], "args": dargs},
+                               "ops": [{"k": "move", "place": {"local": e, "proj": []}}]}, "span": span}]
+            caller["blocks"].append({"cleanup": False, "stmts": pst, "term": {"k": "goto", "target": t["target"], "span": span}})
+            caller["blocks"].append({"cleanup": False, "stmts": [], "term": {"k": "unreachable", "span": span}})
+            # the closure body takes its place on the arm
+            _inline_site(caller, b_run, cb)
+            cb["inlined_away"] = True
+            done.append((caller["path"], cdef, c.get("def")))
+    return done
+
+
 def inline_new_helpers(doc, max_blocks=400):
     pinned = pinned_fns()
     if pinned is None:
